@@ -169,8 +169,9 @@ def gen_ops(rng, cfg, nops):
         elif k == 'set_factor_boundary':
             f0 = rng.uniform(0.1, 0.9)
             n = rng.choice(names)
-            if n not in signed:
-                ops.append([k, n, [f0, rng.uniform(1.1, 10)]])
+            # (for a parameter whose value is negative at that moment the
+            # factors give the pair in descending order, on its side of zero)
+            ops.append([k, n, [f0, rng.uniform(1.1, 10)]])
         elif k == 'set_prior':
             n = rng.choice(names)
             ops.append([k, n, _prior_spec(rng, signed=n in signed,
